@@ -11,6 +11,9 @@ static N_FAST: AtomicUsize = AtomicUsize::new(0);
 static N_BOUND: AtomicUsize = AtomicUsize::new(0);
 static N_LCFG: AtomicUsize = AtomicUsize::new(0);
 static THOROUGH: AtomicUsize = AtomicUsize::new(0);
+static EXTRA_LCFG: AtomicUsize = AtomicUsize::new(0);
+/// room for `k` more configuration cases beyond the allowance (deterministic families that come after the generated loop)
+pub fn reserve_lines_cfg(k: usize) { EXTRA_LCFG.store(k, AO::Relaxed); }
 
 pub fn set_thorough(t: bool) { THOROUGH.store(t as usize, AO::Relaxed); }
 fn room(counter: &AtomicUsize, quick: usize) -> bool {
@@ -94,7 +97,8 @@ pub fn bound_emit(cx: &mut Ctx, text: &[u8]) {
 
 /// LineProcessor::with_config under the configuration bits (1 skip_empty, 2 trim, 4 preserve endings)
 pub fn lines_cfg_emit(cx: &mut Ctx, text: &str, cfgbits: u64, batch: usize, delim: &str) {
-    if !room(&N_LCFG, 260) { return; }
+    let extra = EXTRA_LCFG.load(AO::Relaxed);
+    if extra > 0 { EXTRA_LCFG.store(extra - 1, AO::Relaxed); } else if !room(&N_LCFG, 260) { return; }
     let cj = json!({"cell": "lines_cfg", "text": text, "cfg": cfgbits, "batch": batch, "delim": delim});
     let r = guarded(|| -> Result<String, String> {
         let mut cfg = LineProcessorConfig::default();
